@@ -6,7 +6,7 @@
 (* TRACE_FILE: array of [idx, qs: array of [q, obs]]; kinds:                     *)
 (*   sorted   keys = [[f, rev]..], grev, k, docs     search(sortedby=..., reverse=grev, limit=k) *)
 (*   groups   f, overlap, groups = [[key, [docnum..]]..]   Results.groups()  (key 0 = None)      *)
-(*   collapse f, n, k, docs                           search(collapse=f, collapse_limit=n, limit=k) by score *)
+(*   collapse f, n, k, sort, docs                     search(collapse=f, collapse_limit=n, limit=k[, sortedby]) *)
 (*   filtered filt, mask (queries or null), k, hits   search(filter=, mask=, limit=k)            *)
 (*   filteredlen  ..., n                              len() of those results                     *)
 (*   page     pagenum, pagelen, total, pagecount, offset, plen, docs   search_page              *)
@@ -23,16 +23,26 @@ Key1(idx, d, f) == Vals(idx, d, f)[1]          \* sort key of a single-valued fi
 
 \* lexicographic comparison over the requested keys, each ascending or reversed; document order on ties.
 \* "_score" sorts by score, best first.
-RECURSIVE KeyLess(_, _, _, _, _, _)
-KeyLess(idx, m, keys, i, a, b) ==
+\* Documents without a value for a key all carry the same (absent) value: they tie with one another, and
+\* the absent value has one place in the key's order.  The property does not say which place, so miss[i]
+\* (an odd number; values are doubled ranks) is chosen existentially per key in SortedOK.
+RECURSIVE KeyLess(_, _, _, _, _, _, _)
+KeyLess(idx, m, keys, miss, i, a, b) ==
   IF i > Len(keys) THEN a < b
   ELSE LET f == keys[i][1]
            rev == keys[i][2]
-           ka == IF f = "_score" THEN 0 - m[a] ELSE Key1(idx, a, f)
-           kb == IF f = "_score" THEN 0 - m[b] ELSE Key1(idx, b, f)
-       IN IF ka = kb THEN KeyLess(idx, m, keys, i + 1, a, b)
+           kv(d) == IF f = "_score" THEN 0 - m[d] ELSE IF HasVal(idx, d, f) THEN 2 * Key1(idx, d, f) ELSE miss[i]
+           ka == kv(a)
+           kb == kv(b)
+       IN IF ka = kb THEN KeyLess(idx, m, keys, miss, i + 1, a, b)
           ELSE IF rev THEN ka > kb ELSE ka < kb
-SortSpec(idx, m, S, keys) == SetToSortSeq(S, LAMBDA a, b : KeyLess(idx, m, keys, 1, a, b))
+NoMiss(keys) == [i \in DOMAIN keys |-> 1]
+SortSpec(idx, m, S, keys) == SetToSortSeq(S, LAMBDA a, b : KeyLess(idx, m, keys, NoMiss(keys), 1, a, b))
+SortSpecM(idx, m, S, keys, miss) == SetToSortSeq(S, LAMBDA a, b : KeyLess(idx, m, keys, miss, 1, a, b))
+MaxRank == 8
+MissChoices(idx, S, keys) ==
+  [i \in DOMAIN keys |-> IF keys[i][1] = "_score" \/ \A d \in S : HasVal(idx, d, keys[i][1]) THEN {1}
+                         ELSE {2 * j + 1 : j \in 0 .. MaxRank}]
 HasAll(idx, d, keys) == \A i \in DOMAIN keys : keys[i][1] = "_score" \/ HasVal(idx, d, keys[i][1])
 Rev(s) == [i \in DOMAIN s |-> s[Len(s) + 1 - i]]
 Prefix(s, k) == IF k = 0 \/ k >= Len(s) THEN s ELSE SubSeq(s, 1, k)
@@ -42,11 +52,12 @@ SortedOK(idx, m, o) ==
       full == {d \in S : HasAll(idx, d, o.keys)}
       spec == SortSpec(idx, m, full, o.keys)
       want == IF o.grev THEN Rev(spec) ELSE spec
+      ch == MissChoices(idx, S, o.keys)
   IN IF full = S
      THEN o.docs = Prefix(want, o.k)
-     ELSE \* documents without a value: their place is not fixed by the property; the others keep their order
-          /\ o.k = 0 => ToSet(o.docs) = S /\ Len(o.docs) = Cardinality(S)
-          /\ o.k = 0 => SelectSeq(o.docs, LAMBDA d : d \in full) = want
+     ELSE \E miss \in {f \in [DOMAIN o.keys -> UNION {ch[i] : i \in DOMAIN o.keys}] : \A i \in DOMAIN o.keys : f[i] \in ch[i]} :
+            LET sp == SortSpecM(idx, m, S, o.keys, miss)
+            IN o.docs = Prefix(IF o.grev THEN Rev(sp) ELSE sp, o.k)
 
 \* groups: each matched document under each of its values (overlap) / its first value; no value -> key 0
 GroupKeys(idx, d, f, overlap) == IF ~HasVal(idx, d, f) THEN {0}
@@ -73,8 +84,10 @@ CollapseSeq(idx, rank, f, n, i, shared) ==
            same == Cardinality({j \in DOMAIN prev : (shared \/ (HasVal(idx, prev[j], f) /\ HasVal(idx, d, f)))
                                                     /\ keyof(prev[j]) = keyof(d)})
        IN IF (shared \/ HasVal(idx, d, f)) /\ same >= n THEN prev ELSE Append(prev, d)
+\* the ranking that is collapsed: by score, or by the requested field (driver: every document has it)
+CollapseRank(idx, m, o) == IF o.sort = <<>> THEN Rank(m) ELSE SortSpec(idx, m, DOMAIN m, o.sort)
 CollapseOK(idx, m, o) ==
-  LET rank == Rank(m)
+  LET rank == CollapseRank(idx, m, o)
       kept == CollapseSeq(idx, rank, o.f, o.n, Len(rank), FALSE)
   IN o.docs = Prefix(kept, o.k)
 
@@ -115,9 +128,10 @@ Expected(idx, m, q, o) ==
                                IN IF o.grev THEN Rev(spec) ELSE spec,
                              matched |-> Cardinality(DOMAIN m)]
     [] o.kind = "groups" -> [groups |-> GroupsSpec(idx, DOMAIN m, o.f, o.overlap)]
-    [] o.kind = "collapse" -> [docs |-> Prefix(CollapseSeq(idx, Rank(m), o.f, o.n, Len(Rank(m)), FALSE), o.k),
+    [] o.kind = "collapse" -> LET rk == CollapseRank(idx, m, o) IN
+                              [docs |-> Prefix(CollapseSeq(idx, rk, o.f, o.n, Len(rk), FALSE), o.k),
                                docs_if_valueless_documents_share_a_key |->
-                                  Prefix(CollapseSeq(idx, Rank(m), o.f, o.n, Len(Rank(m)), TRUE), o.k)]
+                                  Prefix(CollapseSeq(idx, rk, o.f, o.n, Len(rk), TRUE), o.k)]
     [] o.kind = "page" -> PageFacts(m, o)
     [] o.kind = "len" -> [n |-> Cardinality(DOMAIN m)]
     [] o.kind \in {"filtered", "filteredlen"} ->
